@@ -400,6 +400,39 @@ def run_case(inp):
                 intact(der2, s_der2, f"{label} after in-place append on its source")
         except Exception as e:  # noqa: BLE001
             V("no-error", f"aliasing scenario raised {type(e).__name__}: {str(e)[:100]}")
+    elif kind == "multisort":
+        # sort by several keys with tied key tuples on a table of more than a few rows: whatever order the ties
+        # come out in, every row must still carry its own position, orientation and features
+        from scipy.spatial.transform import Rotation
+        r = np.random.default_rng(inp["seed"])
+        n_ = inp["n"]
+        pos = np.arange(3 * n_, dtype=np.float32).reshape(n_, 3) * 1.5
+        rot = Rotation.from_rotvec(r.uniform(-1, 1, size=(n_, 3)))
+        t = Molecules(pos, rot, features={"tag": np.arange(n_), "k1": r.integers(0, inp["g1"], size=n_),
+                                          "k2": r.integers(0, inp["g2"], size=n_)})
+        for by, kw in ((["k1", "k2"], {}), (["k2", "k1"], {"descending": True}), (["k1"], {})):
+            try:
+                out = t.sort(by, **kw) if len(by) > 1 else t.sort(by[0], **kw)
+            except Exception as e:  # noqa: BLE001
+                V("no-error", f"sort({by}, {kw}) raised {type(e).__name__}: {str(e)[:100]}")
+                continue
+            tags = out.features["tag"].to_numpy()
+            if sorted(tags.tolist()) != list(range(n_)):
+                V("permutation", f"sort({by}) is not a permutation of the rows")
+                continue
+            keys = [tuple(int(out.features[c][i]) for c in by) for i in range(n_)]
+            if keys != sorted(keys, reverse=bool(kw.get("descending"))):
+                V("sorted", f"sort({by}, {kw}) result is not ordered by the keys")
+            if np.abs(out.pos - pos[tags]).max() > 1e-4:
+                V("row-integrity", f"sort({by}, {kw}): positions no longer belong to the rows' features")
+            dq = np.abs(np.sum(out.quaternion() * rot.as_quat()[tags], axis=1))
+            bad = int(np.sum(dq < 1 - 1e-5))
+            if bad:
+                V("row-integrity", f"sort({by}, {kw}): {bad}/{n_} orientations belong to another molecule "
+                                   f"(tied key tuples, {n_} rows)")
+            for c in ("k1", "k2"):
+                if not np.array_equal(out.features[c].to_numpy(), t.features[c].to_numpy()[tags]):
+                    V("row-integrity", f"sort({by}, {kw}): feature {c} detached from its row")
     elif kind == "partition":
         g = inp["g"]
         mm = m.with_features((pl.col("tag") % g).alias("k"))
@@ -486,6 +519,9 @@ def oracle(rng, thorough, deep=False, hints=None):
     for it in range(12 if big else 4):
         cases.append(dict(kind="partition", n=int(rng.integers(1, 13)), g=int(rng.integers(1, 5)),
                           edges=sorted({float(x) for x in rng.integers(-1, 12, size=3)})))
+    for it in range(4 if big else 2):
+        cases.append(dict(kind="multisort", n=int([30, 64, 25, 120][it]), g1=int(rng.integers(2, 4)), g2=int(rng.integers(2, 4)),
+                          seed=int(rng.integers(0, 10 ** 6))))
     cases.append(dict(kind="reject", n=3))
     for it, sub in enumerate(["none", "some", "all"]):
         cases.append(dict(kind="mixed-features", n=int(rng.integers(1, 6)), k=int(rng.integers(1, 4)), subset=sub))
